@@ -10,6 +10,7 @@ from __future__ import annotations
 
 import html.parser
 import inspect
+import json
 import io
 import contextlib
 import re
@@ -21,13 +22,15 @@ from ..core import Ctx, enc, dec
 USES_TABLES = True
 
 THEOREMS = [
-    "Epytext.colorize_conserves", "Epytext.strip_plain", "Epytext.symbols_total", "Epytext.tables_current",
-    "Epytext.literal_block_exact", "Epytext.doctest_block_exact",
+    "Epytext.colorize_conserves", "Epytext.colorize_conserves_live", "Epytext.strip_plain",
+    "Epytext.symbols_total", "Epytext.liveCfg_total", "Epytext.tables_current",
+    "Epytext.literal_block_exact", "Epytext.stripBlankEnds_joinNL", "Epytext.removed_prefix_is_space",
+    "Epytext.doctest_block_exact",
     "Doctest.splice_conserves", "Doctest.subfunc_conserves", "Doctest.doctest_body_text",
     "Doctest.doctest_body_conserves_partial", "Doctest.doctest_body_conserves_counterexample",
     "Epytext.plaintext_exact",
-    "Docstring.every_tag_rendered_or_reported_partial", "Docstring.every_tag_rendered_or_reported_counterexample",
-    "Docstring.dropped_iff_var_outside_module_or_class",
+    "Docstring.kept_iff_in_scope", "Docstring.every_tag_rendered_or_reported_partial",
+    "Docstring.every_tag_rendered_or_reported_counterexample", "Docstring.handlers_modelled",
 ]
 PARTIAL = {
     "Doctest.doctest_body_conserves_partial":
@@ -163,24 +166,31 @@ def scratch_system():
     return _SYS
 
 
-def impl_visible(text: str) -> str:
-    """parse one epytext paragraph with the real parser, render it, return the visible text"""
+def impl_visible(text: str) -> Tuple[str, str]:
+    """parse one epytext paragraph with the real parser; returns (text of the docutils nodes `_to_node` builds,
+    text of the rendered HTML or 'raises:<exception>')"""
     from pydoctor.epydoc.markup import epytext as E, ParseError
+    from pydoctor import node2stan
     from pydoctor.stanutils import flatten
     errs: List[Any] = []
     try:
         pd = E.parse_docstring(text, errs)
     except ParseError:
-        return "error"
+        return "error", "error"
     if any(e.is_fatal() for e in errs):
-        return "error"
+        return "error", "error"
+    try:
+        nodes_text = "ok " + enc("".join(node2stan.gettext(pd.to_node())))
+    except Exception as e:
+        nodes_text = "raises"
     mod = scratch_system().allobjects["m"]
     try:
-        stan = pd.to_stan(mod.docstring_linker)
-        h = flatten(stan)
+        with contextlib.redirect_stdout(io.StringIO()):
+            h = flatten(pd.to_stan(mod.docstring_linker))
+        rendered = "ok " + enc(text_of(dom(h), sep=False))
     except Exception as e:
-        return "raises"
-    return "ok " + enc("".join(html_text(h).out))
+        rendered = "raises:" + type(e).__name__ + ":" + str(e).split(":")[-1].strip()
+    return nodes_text, rendered
 
 
 def impl_target(s: str) -> str:
@@ -412,36 +422,45 @@ def stream_colorize(ctx: Ctx) -> None:
 
 
 def stream_visible(ctx: Ctx) -> None:
-    """well-formed paragraphs through the real parser and renderer; the model answers visible text and strip"""
-    reqs, impls, pay = [], [], []
+    """well-formed paragraphs through the real parser (`_to_node`) and renderer; the model answers visible text and strip"""
+    reqs, pay = [], []
     n = 1500 if ctx.quick else 30000
     outs = []
     for _ in range(n):
         s, nested = gen_inline(ctx.rng, 0, True)
-        s = " ".join(s.split())          # a paragraph token: lines stripped and joined by single spaces
+        s = " ".join(s.split(" ")) if ctx.rng.random() < 0.8 else s   # mostly single blanks; sometimes runs of blanks survive
+        s = s.strip()
         if not s or re.match(r"(-|\d+\.|@\w+.*:|>>>)( |$)", s) or s.endswith("::") or "M{" in s:
             continue
-        out = impl_visible(s)
+        nodes_text, rendered = impl_visible(s)
         reqs.append("epytext visible %s %s" % (enc(s), enc(word_extra(s))))
-        impls.append(out)
         pay.append({"text": s})
-        outs.append((s, nested, out))
+        outs.append((s, nested, nodes_text, rendered))
     # the model answers `ok <visible> <strip>`; the implementation only has the visible text
     if ctx.model_ok:
         model = ctx.driver.run_parallel(reqs)
-        for (s, nested, out), mo in zip(outs, model):
+        for (s, nested, nodes_text, rendered), mo in zip(outs, model):
             ctx.traces_validated += 1
             m = mo.split()
             if m[0] == "ok":
                 if m[1] != m[2]:
                     ctx.disagree("visible==strip (model, theorem colorize_conserves)", {"text": s}, m[1], m[2])
                 mo = "ok " + m[1]
-            if mo != out:
-                ctx.disagree("render(paragraph)~Epytext.visible", {"text": s}, mo, out)
-            ctx.case("visible:" + s, nested and out.startswith("ok"), None)
-            ctx.count("visible:" + out.split()[0])
-            if out == "raises":
-                ctx.fail("epytext:to_stan-raises", {"paragraph": s}, "rendering a paragraph the parser accepted raises")
+            if mo != nodes_text:
+                ctx.disagree("_to_node text~Epytext.visible", {"text": s}, mo, nodes_text)
+            ctx.case("visible:" + s, nested and nodes_text.startswith("ok"), None)
+            ctx.count("visible:" + nodes_text.split()[0])
+            # direct check on the rendering of the same paragraph: it exists and shows the text of the nodes
+            if rendered.startswith("raises"):
+                multi = (re.search(r"C\{[^{}]*  ", s) or "  " in dec(nodes_text.split()[1]) or "\u00a0" in s) if nodes_text.startswith("ok") else False
+                sig = ("html2stan:nbsp-entity:docstring-falls-back-to-plaintext" if ("undefined entity" in rendered and multi)
+                       else "epytext:to_stan-" + rendered.rsplit(":", 1)[0])
+                ctx.fail(sig, {"paragraph": s, "exception": rendered}, "rendering a paragraph the parser accepted raises: " + rendered)
+            elif nodes_text.startswith("ok") and dec(rendered.split()[1] if len(rendered.split()) > 1 else "u:").replace("\u00a0", " ") != \
+                    dec(nodes_text.split()[1] if len(nodes_text.split()) > 1 else "u:").replace("\u00a0", " "):
+                ctx.fail("epytext:rendered-text-differs-from-nodes", {"paragraph": s, "rendered": dec(rendered.split()[1]) if len(rendered.split()) > 1 else "",
+                                                                       "nodes": dec(nodes_text.split()[1]) if len(nodes_text.split()) > 1 else ""},
+                         "the rendered text of a paragraph differs from the text of its docutils nodes")
 
 
 def stream_blocks(ctx: Ctx) -> None:
@@ -721,6 +740,11 @@ class DocGen:
         owner = self.rng.choice(["function", "function", "class", "module"])
         self.nested_markup = False
         body = [self.para()] + self.blocks(self.rng.choice([0, 1, 1, 2, 3, 4]))
+        r = self.rng.random()
+        if r < 0.04:
+            body[0][1].append(("code2", "a  b"))       # inline code with a run of two blanks
+        elif r < 0.06:
+            body[0][1].append(("w", "10\u00a0EUR"))    # a no-break space in the text
         return {"owner": owner, "body": body, "fields": self.fields(owner)}
 
 
@@ -755,6 +779,8 @@ class Ser:
         if t == "p":
             s, v = self.inl(node[1], in_markup)
             return node[2] + s + node[3], node[2] + v + node[3]
+        if t == "code2":
+            return ("C{%s}" if self.ep else "``%s``") % node[1], node[1]
         if t == "brace":
             if self.ep:
                 return ("E{lb}" if node[1] == "{" else "E{rb}"), node[1]
@@ -935,7 +961,11 @@ class Ser:
             title = self.wrap(b[1], pad, pad, w2, width=200)
             out.words.extend(w2)
             lines.append(title[0])
-            lines.append(pad + "=" * len(title[0].strip()))
+            ulen = len(title[0].strip())
+            if not self.ep:
+                from docutils.utils import column_width
+                ulen = column_width(title[0].strip())       # reST measures the underline in display columns
+            lines.append(pad + "=" * ulen)
             lines.append("")
             for sub in b[2]:
                 self.block(sub, ind, out, lines)
@@ -1200,11 +1230,11 @@ def oracle_document(ctx: Ctx, fmt: str, doc, ser, full: str, src: str, r) -> Non
         return
     fallback = find_all(root, lambda n: n.tag == "p" and n.cls() == "pre")
     bad = [l for l in r["reports"] if "bad docstring" in l]
-    if fallback or bad:
+    if fallback:      # (a non-fatal "bad docstring" warning alone, e.g. docutils' INFO about two equal section titles, loses nothing)
         why = (bad[0].split("bad docstring:")[-1].strip()[:60] if bad else "?")
-        code_spaces = re.search(r"C\{[^{}]*  [^{}]*\}|``[^`]*  [^`]*``", ser["docstring"])
+        code_spaces = re.search(r"C\{[^{}]*  [^{}]*\}|``[^`]*  [^`]*``|\u00a0", ser["docstring"])
         if "undefined entity" in why and code_spaces:
-            sig = "inline-code:multiple-spaces:docstring-falls-back-to-plaintext"
+            sig = "html2stan:nbsp-entity:docstring-falls-back-to-plaintext"
         else:
             sig = "wellformed-docstring-rejected:" + fmt + ":" + re.sub(r"[^A-Za-z ]", "", why.split("\n")[0])[:40].strip().replace(" ", "-")
         ctx.fail(sig, {**inp, "reports": r["reports"][:4]}, f"{fmt}: a well-formed docstring is reported as bad and shown as plain text: {why}")
@@ -1246,18 +1276,25 @@ def oracle_document(ctx: Ctx, fmt: str, doc, ser, full: str, src: str, r) -> Non
         where = None
         if k in ("ivar", "cvar", "var"):
             a = r["attrs"].get(arg)
+            if a and a["visible"] and text_of(dom(a["html"])).split() != words and "Undocumented" not in a["html"]:
+                ctx.fail(f"field:text-altered:var:{fmt}", {**inp, "field": [k, arg, words], "shown": text_of(dom(a["html"])).split()},
+                         f"{fmt}: the documentation of variable {arg} does not show the field's own words")
+                ctx.count("field:%s:%s:ALTERED" % (k, owner_kind))
+                continue
             if a and a["visible"] and text_of(dom(a["html"])).split() == words:
                 where = "attribute"
                 if f["type"] and (a["type"] is None or text_of(dom(a["type"])).split() != [f["type"]]):
                     ctx.fail(f"field:type-of-variable-not-shown:{fmt}", {**inp, "field": [k, arg]}, "type of a documented variable is not shown")
         else:
+            altered = None
             for h in HEADINGS.get(k, []):
                 for row in table.get(h, []):
                     desc = row[-1].split()
                     name = row[0] if len(row) > 1 else ""
-                    if desc != words:
-                        continue
                     if arg and not (name.split(":")[0].lstrip("*") == arg or name == arg):
+                        continue
+                    if desc != words:
+                        altered = (h, desc)
                         continue
                     where = "table:" + h
                     if f["type"] and k in ("param", "return", "yield"):
@@ -1272,10 +1309,16 @@ def oracle_document(ctx: Ctx, fmt: str, doc, ser, full: str, src: str, r) -> Non
                     break
                 if where:
                     break
+            if where is None and altered is not None and not in_admonition(k, words, adm):
+                ctx.fail(f"field:text-altered:{k}:{fmt}", {**inp, "field": [k, arg, words], "shown": altered[1]},
+                         f"{fmt}: the entry of field {f['tag']} {arg or ''} under '{altered[0]}' does not show the field's own words")
+                ctx.count("field:%s:%s:ALTERED" % (k, owner_kind))
+                continue
             if where is None and in_admonition(k, words, adm):
                 where = "admonition"
         if where is None:
-            rep = [l for l in r["reports"] if (arg and re.search(r"\b%s\b" % re.escape(arg), l)) or re.search(r"\b%s\b" % re.escape(f["tag"]), l)]
+            tagre = r"\b[ic]?var\b" if k in ("ivar", "cvar", "var") else r"\b%s\b" % re.escape(f["tag"])
+            rep = [l for l in r["reports"] if (arg and re.search(r"\b%s\b" % re.escape(arg), l)) or re.search(tagre, l)]
             if rep:
                 where = "reported"
         ctx.count("field:%s:%s:%s" % (k, owner_kind, (where or "DROPPED").split(":")[0]))
@@ -1362,7 +1405,7 @@ def stream_fields(ctx: Ctx) -> None:
 
 
 def stream_documents(ctx: Ctx) -> None:
-    n = 260 if ctx.quick else 5000
+    n = 300 if ctx.quick else 6000
     gen = DocGen(ctx.rng)
     for i in range(n):
         doc = gen.document()
@@ -1386,6 +1429,10 @@ def stream_documents(ctx: Ctx) -> None:
             ctx.count("doc-owner:" + doc["owner"])
             for fl in sorted(out.flags):
                 ctx.count("doc-has:%s:%s" % (fl.split(":")[0], fmt))
+            if fmt != "plaintext" and any(n[0] == "code2" for n in doc["body"][0][1]):
+                ctx.count("doc-has:inline-code-with-two-blanks:" + fmt)
+            if fmt != "plaintext" and "\u00a0" in ser["docstring"]:
+                ctx.count("doc-has:no-break-space:" + fmt)
             ctx.count("doc-fields:%d" % min(len(ser["fields"]), 5))
             oracle_document(ctx, fmt, doc, ser, full, src, r)
 
@@ -1403,5 +1450,77 @@ def run(ctx: Ctx) -> None:
 
 
 def replay(ctx: Ctx, obj) -> int:
-    print(obj)
+    """re-run one recorded case on the model and on the implementation; 1 = the property (or the correspondence) still fails"""
+    inp = obj.get("input") or obj.get("request") or obj
+    if isinstance(inp, dict) and "source" in inp and "docformat" in inp:
+        r = render_doc(inp["source"], inp["docformat"], inp["owner"])
+        root = dom(r["html"])
+        print("docformat :", inp["docformat"], " object:", inp["owner"])
+        print("html      :", r["html"])
+        print("reports   :", r["reports"])
+        print("attributes:", {k: (v["visible"], v["kind"]) for k, v in r["attrs"].items()})
+        bad = 0
+        if any("bad docstring" in l for l in r["reports"]):
+            print("oracle    : the docstring is reported as bad and shown as plain text")
+            bad = 1
+        if "field" in inp:
+            f = inp["field"]
+            words = f[2] if isinstance(f[2], list) else [f[2]]
+            shown = text_of(root).split() + [w for a in r["attrs"].values() if a["visible"] for w in text_of(dom(a["html"])).split() + text_of(dom(a["type"] or "")).split()]
+            it = iter(shown)
+            present = all(w in it for w in words)
+            reported = any((f[1] and f[1] in l) or re.search(r"\b[ic]?%s\b" % re.escape(f[0]), l) for l in r["reports"])
+            print("oracle    : field %s %s -> text displayed: %s, reported: %s" % (f[0], f[1] or "", present, reported))
+            bad = bad or int(not (present or reported))
+        if "intended" in inp and "shown" in inp and isinstance(inp["intended"], str):
+            pres = [norm_pre(text_of(p, sep=False), dedent="literal" in p.cls()) for p in find_all(root, lambda n: n.tag == "pre")]
+            ok = inp["intended"] in pres
+            print("oracle    : intended block %r %s among the displayed blocks %r" % (inp["intended"], "is" if ok else "is NOT", pres))
+            bad = bad or int(not ok)
+        return bad
+    if isinstance(inp, dict) and ("paragraph" in inp or "text" in inp):
+        s = inp.get("paragraph", inp.get("text"))
+        rq = ["epytext colorize %s %s" % (enc(s), enc(word_extra(s))), "epytext visible %s %s" % (enc(s), enc(word_extra(s)))]
+        nodes_text, rendered = impl_visible(s)
+        print("paragraph :", repr(s))
+        print("impl tree :", impl_colorize(s))
+        print("impl text :", nodes_text, "| rendered:", rendered)
+        try:
+            mo = ctx.driver.run(rq)
+            print("model tree:", mo[0])
+            print("model text:", mo[1])
+            m = mo[1].split()
+            agree = mo[0] == impl_colorize(s) and (m[0] != "ok" or "ok " + m[1] == nodes_text)
+        except Exception as e:
+            print("model     : unavailable", e)
+            agree = True
+        return int(not agree or rendered.startswith("raises"))
+    if isinstance(inp, dict) and "string" in inp:
+        print("impl :", impl_target(inp["string"]))
+        print("model:", ctx.driver.run(["epytext target " + enc(inp["string"])])[0])
+        return int(impl_target(inp["string"]) != ctx.driver.run(["epytext target " + enc(inp["string"])])[0])
+    if isinstance(inp, dict) and "lines" in inp:
+        out = impl_block(inp["kind"], inp["lines"], inp["start"], inp["block_indent"])
+        mo = ctx.driver.run(["epytext %s %d %d %s" % (inp["kind"], inp["start"], inp["block_indent"], " ".join(enc(l) for l in inp["lines"]))])[0]
+        print("impl :", out)
+        print("model:", mo)
+        return int(out != mo)
+    if isinstance(inp, dict) and ("codeblock" in inp or "doctest" in inp):
+        if "codeblock" in inp:
+            src = inp["codeblock"]
+            out, rq = impl_codeblock(src), "epytext codeblock %s %s" % (enc(src), match_list(src)[0])
+        else:
+            src = inp["doctest"]
+            out, rq = impl_doctestbody(src), ("epytext doctestbody %s %s" % (enc(src), example_list(src)[0])).rstrip()
+        mo = ctx.driver.run([rq])[0]
+        print("impl :", out)
+        print("model:", mo)
+        return int(out != mo)
+    if isinstance(inp, dict) and "handler" in inp:
+        out = impl_field(inp["tag"], inp["kind"], inp["has_arg"], inp["param_exists"], inp["attr_known"])
+        mo = ctx.driver.run(["epytext field %s %s %s %d %d %d" % (inp["tag"], inp["handler"], inp["kind"], inp["has_arg"], inp["param_exists"], inp["attr_known"])])[0]
+        print("impl :", out)
+        print("model:", mo)
+        return int(out != mo)
+    print(json.dumps(obj, indent=1, default=str)[:4000])
     return 0
